@@ -132,14 +132,14 @@ func HarnessC14Routes() {
 var verifC14ActionYAML string
 
 func verifC14ReadAction(name string) ([]byte, error) {
-	if name == "/r/act/action.yml" || name == "/r/broken/action.yml" {
+	if name == "/r/act/action.yml" || name == "/r/broken/action.yml" || name == "/r/action.yml" {
 		return []byte(verifC14ActionYAML), nil
 	}
 	return nil, &verifC10Err{"no such file " + name}
 }
 
 func verifC14Stat(name string) (os.FileInfo, error) {
-	if name == "/r/act/index.js" || name == "/r/broken/index.js" {
+	if name == "/r/act/index.js" || name == "/r/broken/index.js" || name == "/r/index.js" {
 		return nil, nil
 	}
 	return nil, &verifC10Err{"no such file " + name}
@@ -176,12 +176,14 @@ func HarnessC14ActionFile() {
 	supplied := []string{"", "token", "TOKEN", "Token", "other"}[verifChoose("supplied", 5)]
 	outRef := []string{"result", "RESULT", "nope"}[verifChoose("output", 3)]
 	s := yScalar
-	step := []*yaml.Node{s("id"), s("a"), s("uses"), s("./act")}
+	// the action lives in a sub-directory or at the repository root
+	spec := []string{"./act", "./", "./act/"}[verifChoose("spec", 3)]
+	step := []*yaml.Node{s("id"), s("a"), s("uses"), s(spec)}
 	var withKey *yaml.Node
 	if supplied != "" {
 		withKey = s(supplied)
 		if verifChoose("withfirst", 2) == 1 {
-			step = []*yaml.Node{s("with"), yMap(withKey, s("v")), s("id"), s("a"), s("uses"), s("./act")}
+			step = []*yaml.Node{s("with"), yMap(withKey, s("v")), s("id"), s("a"), s("uses"), s(spec)}
 		} else {
 			step = append(step, s("with"), yMap(withKey, s("v")))
 		}
